@@ -42,6 +42,7 @@ def svd_case(draw):
         case['threshold'] = draw(st.sampled_from([0, 0, 0.0, 1e-12, 1e-10]))
         case['max_rank'] = draw(st.sampled_from([None, None, 4, 6, 50]))
         case['flags'] = [True, True]
+        case['provenance'] = draw(st.sampled_from([None, None, None, 'ortho_left_scaled', 'ortho_right_scaled', 'ortho_negated_sum', 'copy_of_ortho_left']))
     else:
         nl = int(np.prod(rows[:index]))
         nr = int(np.prod(rows[index:]))
@@ -69,6 +70,13 @@ def svd_case(draw):
             case['threshold'] = draw(st.sampled_from([0, 0, 1e-12]))
         case['max_rank'] = draw(st.sampled_from([None, None, 64]))
         case['flags'] = [draw(st.booleans()), draw(st.booleans())] if klass == 'preorth' else [True, True]
+        sep = [j for j in range(1, k) if exps[j - 1] - exps[j] >= 0.1]       # cuts with a unique best approximation
+        if klass == 'preorth' and case['flags'] == [False, False] and 'keep' not in case and sep and draw(st.booleans()):
+            # both sweeps switched off on an orthonormal input: a finite max_rank acts on the splitting SVD alone and keeps the
+            # leading max_rank singular triplets (with a sweep switched on the cap would also cut the orthonormal side bonds)
+            case['max_rank'] = draw(st.sampled_from(sep))
+            case['keep'] = case['max_rank']
+            case['threshold'] = 0
     return case
 
 
@@ -141,7 +149,29 @@ def body_svd(case):
         cores = [np.array(c) for c in cores]
         k0 = case['index'] - 1        # the centre core carries the scale (the outer cores may have to stay orthonormal)
         cores[k0] = cores[k0] * 10.0 ** case['scale_exp']
-    t = TT([np.array(c, order='K') for c in cores])
+    prov = case.get('provenance')
+
+    def with_history(t):
+        # the train has a history inside the library (whatever bookkeeping earlier routines left on the object travels along):
+        # the dense reference below is contracted from the cores of the object as it is now
+        if not (prov and case['klass'] == 'generic'):
+            return t
+        if prov == 'ortho_left_scaled':
+            t.ortho_left()
+            t = 3.0 * t
+        elif prov == 'ortho_right_scaled':
+            t.ortho_right()
+            t = t * (-0.5)
+        elif prov == 'ortho_negated_sum':
+            t.ortho()
+            t = t - 2.0 * t
+        elif prov == 'copy_of_ortho_left':
+            t.ortho_left()
+            t = t.copy()
+            t.cores[-1] = t.cores[-1] * 2.0
+        return t
+
+    t = with_history(TT([np.array(c, order='K') for c in cores]))
     d, idx = t.order, case['index']
     rows = case['rows']
     x = dense.contract(t.cores).reshape(rows)
@@ -169,6 +199,8 @@ def body_svd(case):
         lab.add('rescaled')
     if case['flags'] != [True, True]:
         lab.add('no_ortho_flags')
+    if prov and case['klass'] == 'generic':
+        lab.add('library_provenance')
     # guard band: no singular value in the ambiguous zone between 'numerically zero' and 'well above every negligible threshold'
     assume(not np.any((sig > 1e-13 * s0) & (sig < 1e-5 * s0)))
     numrank = int(np.sum(sig > 1e-5 * s0))
@@ -213,7 +245,7 @@ def body_svd(case):
     close((U * s) @ V, Mk, 1e-10, s0, 'reconstruction', 'u diag(s) v')
 
     # pinv ----------------------------------------------------------------------------------------------------
-    t2 = TT([np.array(c, order='K') for c in cores])
+    t2 = with_history(TT([np.array(c, order='K') for c in cores]))
     before2 = build.snapshot(t2)
     if case['max_rank'] is None:
         p = t2.pinv(idx, threshold=th, ortho_l=case['flags'][0], ortho_r=case['flags'][1], overwrite=case['overwrite'])
